@@ -151,13 +151,30 @@ def parseCapture (tok : List String) : Option (Bytes × Bytes × String) :=
 def fmtCapture (frame : Bytes) : String :=
   s!"nonce={hexOfBytes (frame.take 12)} len={hexOfBytes ((frame.drop 12).take 4)} ct={canon (frame.drop 16)}"
 
+/-- SO_RCVTIMEO (ms) an accepted session is published with, as the code has it: 0 when every exit of the handshake read
+restores it (regenerated flag), else the handshake timeout -/
+def modelRcvTimeout : Nat :=
+  if Gen.C14.acceptedSessionHasNoRecvTimeout then 0 else Gen.C14.kHandshakeTimeoutMs
+
+/-- specification clause `idle-timeout`: an established session has no receive timeout — a peer may stay silent for any
+length of time between two payloads and the next one is still delivered -/
+def openVerdict (want : String) (impl : Option String) : String :=
+  match impl with
+  | none => "ok"
+  | some i =>
+    if i == want then "ok"
+    else if i.startsWith "ok rcvto=" then "viol:idle-timeout:established session has a receive timeout, " ++ (i.drop 3).toString
+    else "viol:open:" ++ i
+
 def stepCore (st : St) (tok : List String) (_line : String) (impl : Option String) : St × String × String :=
   let pick (dir : String) : Option Dir := if dir == "ab" then some st.ab else if dir == "ba" then some st.ba else none
   let put (dir : String) (d : Dir) : St := if dir == "ab" then { st with ab := d } else { st with ba := d }
   match tok with
   | ["open", k] =>
     match bytesOfHex k with
-    | some kb => ({ key := kb, abKey := kb }, "ok", match impl with | some i => if i == "ok" then "ok" else "viol:open:" ++ i | none => "ok")
+    | some kb =>
+      let model := s!"ok rcvto={modelRcvTimeout}/0"
+      ({ key := kb, abKey := kb }, model, openVerdict "ok rcvto=0/0" impl)
     | none => (st, "bad-op", "ok")
   | ["rekey", k] =>
     -- register_peer_key on both ends while both readers are idle at a frame boundary: sender (`send` snapshots the key
@@ -235,8 +252,9 @@ def stepCore (st : St) (tok : List String) (_line : String) (impl : Option Strin
       (put dir { d with printed := d.reader.delivered.length, expect := [] }, model, verdict)
     | none => (st, "bad-op", "ok")
   | ["rawopen"] =>
-    ({ st with raw := Frames.Reader.init, rawPrinted := 0, rawStream := [], rawSpecPrinted := 0 }, "ok",
-      match impl with | some i => if i == "ok" then "ok" else "viol:open:" ++ i | none => "ok")
+    ({ st with raw := Frames.Reader.init, rawPrinted := 0, rawStream := [], rawSpecPrinted := 0 }, s!"ok rcvto={modelRcvTimeout}",
+      openVerdict "ok rcvto=0" impl)
+  | ["idle", _ms] => (st, "ok", "ok")
   | ["rawframe", nonce, declared, len, seed, chunk] =>
     match bytesOfHex nonce, natArg len, natArg seed, natArg chunk with
     | some nb, some n, some s, some c =>
